@@ -185,7 +185,7 @@ def render_gff(genome, feats, seqid="ref", with_fasta=True, seqregion=True):
 
 # ---------------------------------------------------------------- alignments
 
-def make_msa(rng, genome, nq, p_ins_site=0.04, with_insertions=True):
+def make_msa(rng, genome, nq, p_ins_site=0.04, with_insertions=True, lead=False):
     """Returns (ref_row, [query rows]) of equal width.  Insertion sites are gap columns in the reference row;
     each query has bases or gaps there."""
     n = len(genome)
@@ -194,6 +194,8 @@ def make_msa(rng, genome, nq, p_ins_site=0.04, with_insertions=True):
         for p in range(0, n + 1):          # insertion after p reference bases
             if rng.random() < p_ins_site:
                 sites[p] = rng.randint(1, 3)
+        if lead:            # an insertion before the first reference base (reported at position 0)
+            sites[0] = rng.randint(1, 3)
     queries = []
     for _ in range(nq):
         q = list(genome)
